@@ -264,6 +264,7 @@ impl TaskState {
     }
 }
 
+#[derive(Clone)]
 pub struct BuiltScen {
     pub scen: Scenario,
     pub ranges: Arc<Vec<HandRange>>,
@@ -280,6 +281,7 @@ pub struct World {
     pub trace: Vec<Step>,
     pub state_hashes: std::collections::BTreeSet<u64>,
     pub drain_cap: u64,
+    pub track_states: bool,
 }
 
 #[derive(Clone, Debug, PartialEq)]
@@ -364,6 +366,7 @@ impl World {
             trace: vec![],
             state_hashes: Default::default(),
             drain_cap: 50_000_000,
+            track_states: true,
         }
     }
 
@@ -570,6 +573,8 @@ impl World {
         if did {
             self.steps_done += 1;
             self.trace.push(s);
+        }
+        if did && self.track_states {
             // global-state fingerprint: per task (incarnations, outs so far, last out)
             let mut f = Fold::new();
             for t in &self.tasks {
